@@ -2283,7 +2283,20 @@ func contextAccessors(c *core.Ctx) {
 				e2, ok := x.(*ssa.Extract)
 				return ok && e2.Tuple == ssa.Value(ta) && e2.Index == 1
 			})
-			if !pathEstablishes(pa, okFact) {
+			isOk := func(x ssa.Value) bool {
+				e2, ok := x.(*ssa.Extract)
+				return ok && e2.Tuple == ssa.Value(ta) && e2.Index == 1
+			}
+			notOkFact := core.CondFact(func(cond ssa.Value) (bool, bool) {
+				if isOk(cond) {
+					return false, true
+				}
+				return false, false
+			})
+			// the ok branch was taken — or ok is not looked at at all on this path ( sess, _ := x.(Session); return sess ): where the
+			// assertion fails its value is the nil session, which is what "no session" is; only a path through the *failed* branch that
+			// returns the asserted value is the inverted test
+			if !pathEstablishes(pa, okFact) && pathEstablishes(pa, notOkFact) {
 				good = false
 			}
 		})
